@@ -21,8 +21,9 @@ Inductive gobs :=
 | SBlock (ip : N) | SUnblock (ip : N)
 | SObs (now : Z) (banned blocked : list N) (gates : list (list bool)) (scores : list (Z * Z * bool)) (noip_gates : list bool).
 
-(* exp seconds, blacklist, number of IPs, steps *)
-Definition gater_case : Type := (Z * list N * nat * list gobs)%type.
+(* exp seconds, blacklist, number of IPs, slow sweep (the sweep interval is longer than the script's steps: whether the sweep has
+   run is read off the observation), steps *)
+Definition gater_case : Type := (Z * list N * nat * bool * list gobs)%type.
 
 Definition gates_of (g : gater) (a : option N) : list bool :=
   [intercept_peer_dial g; intercept_addr_dial g a; intercept_accept g a; intercept_secured g Inbound a;
@@ -56,6 +57,37 @@ Fixpoint gater_model (n : nat) (g : gater) (steps : list gobs) : bool :=
       end
   end.
 
+(* slow sweep: the ticker fires every few seconds; between two steps it may or may not have run (in the previous or in the
+   current second). The model keeps the candidate states that are consistent with what was observed. *)
+Definition cands (g : gater) (now : Z) : list gater := [g; sweep g (now - 1); sweep g now].
+Definition obs_matches (n : nat) (g' : gater) (bn bl : list N) (gs : list (list bool)) (scs : list (Z * Z * bool)) (nog : list bool) : bool :=
+  let ips := upto n in
+  beq_list N.eqb bn (filter (banned g') ips) && beq_list N.eqb bl (filter (blk g') ips) &&
+  beq_list (beq_list Bool.eqb) gs (map (fun ip => gates_of g' (Some ip)) ips) &&
+  beq_list score_eqb scs (map (score_obs g') ips) && beq_list Bool.eqb nog (gates_of g' None).
+
+Fixpoint gater_model_slow (n : nat) (gl : list gater) (steps : list gobs) : bool :=
+  match gl with
+  | [] => false
+  | _ =>
+    match steps with
+    | [] => true
+    | s :: rest =>
+        match s with
+        | SPen ip amt now ret =>
+            let next := flat_map (fun g => flat_map (fun c => let '(g', ns) := add_penalty c ip amt now in
+                                                       if ns =? ret then [g'] else []) (cands g now)) gl in
+            gater_model_slow n next rest
+        | SNoIp amt ret err => err && (ret =? 0) && gater_model_slow n gl rest
+        | SBlock ip => gater_model_slow n (map (fun g => block g ip) gl) rest
+        | SUnblock ip => gater_model_slow n (map (fun g => unblock g ip) gl) rest
+        | SObs now bn bl gs scs nog =>
+            let ok := filter (fun g' => obs_matches n g' bn bl gs scs nog) (flat_map (fun g => cands g now) gl) in
+            gater_model_slow n (firstn 1 ok) rest
+        end
+    end
+  end.
+
 (* oracle, on the implementation's own observations:
    - an IP listed as banned or blacklisted is refused by AddrDial, Accept and Secured(inbound); every other IP and every
      address without IP passes all gates; PeerDial, Secured(outbound), Upgraded always pass;
@@ -77,8 +109,8 @@ Definition expect_after_pen (e : Z) (p : prev_state) (ip : N) (amt now : Z) (liv
    the property does not fix the second in which an expired ban is removed) *)
 Definition surely_live (p : prev_state) (ip : N) (now : Z) : bool :=
   let '(s, x, o) := nth_score p ip in o && ((x =? -1) || (now <? x)).
-Definition surely_dead (p : prev_state) (ip : N) (now : Z) : bool :=
-  let '(s, x, o) := nth_score p ip in negb o || (negb (x =? -1) && (x <? now)).
+Definition surely_dead (slow : bool) (p : prev_state) (ip : N) (now : Z) : bool :=
+  let '(s, x, o) := nth_score p ip in negb o || (negb slow && negb (x =? -1) && (x <? now)).
 
 Fixpoint set_nth {A} (n : nat) (v : A) (l : list A) : list A :=
   match n, l with
@@ -87,7 +119,7 @@ Fixpoint set_nth {A} (n : nat) (v : A) (l : list A) : list A :=
   | _, [] => []
   end.
 
-Fixpoint gater_spec (e : Z) (p : prev_state) (steps : list gobs) : bool :=
+Fixpoint gater_spec (slow : bool) (e : Z) (p : prev_state) (steps : list gobs) : bool :=
   match steps with
   | [] => true
   | s :: rest =>
@@ -95,12 +127,12 @@ Fixpoint gater_spec (e : Z) (p : prev_state) (steps : list gobs) : bool :=
       | SPen ip amt now ret =>
           let '(ns1, nx1, no1) := expect_after_pen e p ip amt now true in
           let '(ns0, nx0, no0) := expect_after_pen e p ip amt now false in
-          if surely_live p ip now then (ret =? ns1) && gater_spec e (set_nth (N.to_nat ip) (ns1, nx1, no1) p) rest
-          else if surely_dead p ip now then (ret =? ns0) && gater_spec e (set_nth (N.to_nat ip) (ns0, nx0, no0) p) rest
-          else if ret =? ns1 then gater_spec e (set_nth (N.to_nat ip) (ns1, nx1, no1) p) rest
-          else (ret =? ns0) && gater_spec e (set_nth (N.to_nat ip) (ns0, nx0, no0) p) rest
-      | SNoIp amt ret err => err && gater_spec e p rest
-      | SBlock _ | SUnblock _ => gater_spec e p rest
+          if surely_live p ip now then (ret =? ns1) && gater_spec slow e (set_nth (N.to_nat ip) (ns1, nx1, no1) p) rest
+          else if surely_dead slow p ip now then (ret =? ns0) && gater_spec slow e (set_nth (N.to_nat ip) (ns0, nx0, no0) p) rest
+          else if ret =? ns1 then gater_spec slow e (set_nth (N.to_nat ip) (ns1, nx1, no1) p) rest
+          else (ret =? ns0) && gater_spec slow e (set_nth (N.to_nat ip) (ns0, nx0, no0) p) rest
+      | SNoIp amt ret err => err && gater_spec slow e p rest
+      | SBlock _ | SUnblock _ => gater_spec slow e p rest
       | SObs now bn bl gs scs nog =>
           let ips := upto (length scs) in
           let gate_ok := forallb (fun ip =>
@@ -108,26 +140,31 @@ Fixpoint gater_spec (e : Z) (p : prev_state) (steps : list gobs) : bool :=
                            beq_list Bool.eqb (nth (N.to_nat ip) gs []) [true; a; a; a; true; true]) ips in
           let ban_ok := forallb (fun ip =>
                            let '(s, x, o) := nth_score scs ip in
-                           Bool.eqb (memN ip bn) (o && negb (x =? -1)) && (if o && negb (x =? -1) then now <=? x else true)) ips in
+                           Bool.eqb (memN ip bn) (o && negb (x =? -1)) && (if o && negb (x =? -1) && negb slow then now <=? x else true)) ips in
           (* continuity with the previous observation / expected state *)
           let cont_ok := forallb (fun ip =>
                            let '(s0, x0, o0) := nth_score p ip in
                            let '(s, x, o) := nth_score scs ip in
                            if o0 then
-                             if negb (x0 =? -1) && (x0 <? now) then negb o                      (* expired ban: removed, clean *)
-                             else if negb (x0 =? -1) && (x0 =? now) then negb o || ((s =? s0) && (x =? x0)) (* expiring now *)
+                             if negb slow && negb (x0 =? -1) && (x0 <? now) then negb o         (* expired ban: removed, clean *)
+                             else if negb (x0 =? -1) && (x0 <=? now) then negb o || ((s =? s0) && (x =? x0)) (* expiring now *)
                              else o && (s =? s0) && (x =? x0)                                   (* otherwise unchanged *)
                            else negb o) ips in
-          gate_ok && ban_ok && (match p with [] => true | _ => cont_ok end) &&
+          (* accepted => clean: an IP that passes the gates carries no ban entry and no score at or above the threshold *)
+          let clean_ok := forallb (fun ip =>
+                           let '(s, x, o) := nth_score scs ip in
+                           let accepted := nth 1 (nth (N.to_nat ip) gs []) false in
+                           if accepted && o then (x =? -1) && (s <? max_penalty) else true) ips in
+          gate_ok && ban_ok && clean_ok && (match p with [] => true | _ => cont_ok end) &&
           beq_list Bool.eqb nog [true; true; true; true; true; true] &&
-          gater_spec e scs rest
+          gater_spec slow e scs rest
       end
   end.
 
 Definition check_gater (c : gater_case) : N :=
-  let '(e, bl, n, steps) := c in
+  let '(e, bl, n, slow, steps) := c in
   let g0 := fold_left block bl (empty_gater e) in
-  code (gater_model n g0 steps) (gater_spec e [] steps).
+  code (if slow then gater_model_slow n [g0] steps else gater_model n g0 steps) (gater_spec slow e [] steps).
 
 (* ---------------- (B) rate limiter scripts *)
 Inductive lobs :=
@@ -149,9 +186,10 @@ Fixpoint limiter_model (m : mnode) (steps : list lobs) : bool :=
        end) && limiter_model m' rest
   end.
 
-(* oracle: (O1) while the messages of (procedure, peer) since the last reset do not exceed the limit the score of the peer's
-   IP does not change; (O2) a change of the score is exactly the configured penalty of the procedure; (O3) the first
-   message above the limit in an interval is penalised *)
+(* oracle, per (procedure, peer) pair and independent of every other pair: count the pair's own messages since the last reset
+   or its own last penalty; while the count does not exceed the limit the score of the sender's IP does not change at that
+   message; the message that exceeds it is penalised with exactly the configured penalty of the procedure (and the count
+   restarts). *)
 Fixpoint limiter_spec (lims : list (Z * Z)) (since : N -> N -> Z) (last : N -> Z) (steps : list lobs) : bool :=
   match steps with
   | [] => true
@@ -161,11 +199,9 @@ Fixpoint limiter_spec (lims : list (Z * Z)) (since : N -> N -> Z) (last : N -> Z
       let n := since proc peer + 1 in
       let sc_now := if has then s else 0 in
       let d := sc_now - last ip in
-      negb err &&
-      (if n <=? lim then d =? 0 else true) &&
-      ((d =? 0) || (d =? pen)) &&
-      (if n =? lim + 1 then d =? pen else true) &&
-      limiter_spec lims (fun p q => if (p =? proc)%N && (q =? peer)%N then n else since p q)
+      let over := lim <? n in
+      negb err && (if over then d =? pen else d =? 0) &&
+      limiter_spec lims (fun p q => if (p =? proc)%N && (q =? peer)%N then (if over then 0 else n) else since p q)
                    (fun q => if (q =? ip)%N then sc_now else last q) rest
   end.
 
